@@ -1,6 +1,7 @@
 import OV.Model.Index
 import OV.Lemmas.Index
 import OV.Lemmas.IndexPlan
+import OV.Lemmas.IndexGather
 /-!
 # C11 — tensor indexing and slicing mean what they mean in NumPy
 
@@ -127,9 +128,10 @@ theorem scalar_as_slice {α} (l : List α) (i : Int) :
 
 example : onnxSliceList [10, 20, 30] (-2) (-1) 1 = [20] ∧ onnxSliceList [10, 20, 30] (-1) 0 1 = [] := by decide
 
-/-- **Axis level, Slice path**: whenever the converter's Slice(+Squeeze) treatment of a constant
-component yields a result on an axis (of any extent below the int64 sentinel), NumPy yields the
-same result on that axis — given the D22 hypothesis for negative steps. -/
+/-- **Axis level, Slice path**: whenever the converter's Slice(+Squeeze) treatment of a component
+(`:`, a Python int, a slice whose bounds and step are constants *or tensors*) yields a result on an
+axis (of any extent below the int64 sentinel), NumPy yields the same result on that axis — given
+the D22 hypothesis for negative steps. -/
 theorem graph_axis_refines_numpy_partial (c : Comp) (srcs : List Nat) (a : AxisMap)
     (hlen : (srcs.length : Int) < maxint)
     (hD22 : ∀ lo hi st, c = .slice lo hi st → (st.val?).getD 1 < 0 →
@@ -169,7 +171,27 @@ theorem graph_axis_refines_numpy_partial (c : Comp) (srcs : List Nat) (a : AxisM
       exact h
     · simp only [hskip, if_false] at h
       cases st with
-      | dyn v => simp at h
+      | dyn v =>
+        -- tensor-valued step: both bounds are written out and passed to Slice as they are
+        have e : (Bnd.dyn v).val? = some v := rfl
+        cases hl : lo.val? with
+        | none => simp [hl] at h
+        | some l =>
+          cases hh : hi.val? with
+          | none => simp [hl, hh] at h
+          | some u =>
+            simp only [hl, hh] at h
+            simp only [numpyAxis, e, Option.getD, hl, hh]
+            by_cases hv : v = 0
+            · simp [hv] at h
+            · have hb : (v == 0) = false := by simpa using hv
+              simp only [hb] at h ⊢
+              have hcb : convBounds (some l) (some u) v = (l, u) := by
+                unfold convBounds; split <;> rfl
+              have := hstep v rfl hv
+              rw [hl, hh, hcb] at this
+              rw [this] at h
+              exact h
       | none =>
         have e : (Bnd.none).val? = none := rfl
         simp only [numpyAxis, e, Option.getD] at h ⊢
@@ -189,248 +211,119 @@ example : graphAxisSlicePath (.slice (.const 1) .none (.const 2)) [0, 1, 2, 3, 4
 example : graphAxisSlicePath (.int (-2)) [0, 1, 2] = .ok (.drop 1) ∧
     graphAxisSlicePath (.int (-1)) [0, 1, 2] = .error .indexError := by decide
 
-/-- **Whole expressions, Slice(+Squeeze) path.**  For every index expression made of constant
-components (`:`, Python ints, slices with constant bounds — any number of them, any rank, any
-dimension sizes below the int64 sentinel, including 0) for which the converter takes its
-Slice path: if the translated graph returns a tensor, NumPy returns the same tensor.  The only
-hypothesis beyond the code's own case split is the D22 one (a negative-step slice has no explicit
-start below `-d`). -/
+/-- **Whole expressions, the converter (all paths, tensor-valued indices and bounds included).**
+For *every* index expression with at most one 1-D tensor index placed so that NumPy keeps the
+broadcast axis in place (`needsTranspose = false`) — `:`, Python ints, rank-0 tensor indices,
+slices whose bounds and steps are constants or tensors; any number of components up to the rank,
+any rank, any dimension sizes below the int64 sentinel, 0 included, index values in or out of
+range: if the graph `Converter._translate_subscript_expr` emits (Slice, Squeeze, then the Gather
+chain from the highest axis down, each Gather on the axis of the *intermediate* result — /repo
+commit e7769b9) returns a tensor, NumPy returns the same tensor.  The only hypothesis that is not a
+description of the covered forms is the D22 one (a negative-step slice has no explicit start below
+`-d`); it is necessary (`graph_index_without_d22_refuted`).  This statement was false before
+e7769b9 (finding D7: `A[i, 0]`, see `graph_index_d7_witness_fixed`). -/
+theorem graph_index_correct_partial (comps : List Comp) (shape : List Nat) (r : View)
+    (hvec : (comps.filter Comp.isVec).length ≤ 1)
+    (hnt : needsTranspose comps = false)
+    (hlen : comps.length ≤ shape.length)
+    (hdims : ∀ d ∈ shape, (d : Int) < maxint)
+    (hD22 : ∀ (j d : Nat) (lo hi st : Bnd), comps[j]? = some (.slice lo hi st) → shape[j]? = some d →
+        (st.val?).getD 1 < 0 → ∀ x, lo.val? = some x → -(d : Int) ≤ x)
+    (h : graphIndex comps shape = .ok r) : numpyIndex comps shape = .ok r := by
+  refine numpyIndex_of_axiswise comps shape r hvec hnt hlen ?_
+  cases huse : useSlice comps with
+  | false => exact graph_gatherpath_axiswise comps shape r hlen huse h
+  | true =>
+    have hax := graph_slicepath_axiswise comps shape r hlen huse h
+    refine axiswise_mono _ numpyAxis comps shape r ?_ hax
+    intro j c d a hc hd hg
+    simp only [withGather] at hg
+    by_cases hk : (c.kind == Kind.nonScalar) = true
+    · simpa [hk] using hg
+    · simp only [hk, Bool.false_eq_true, if_false] at hg
+      rw [graphPre_not_nonScalar c _ (by simpa using hk)] at hg
+      refine graph_axis_refines_numpy_partial c (List.range d) a ?_ ?_ hg
+      · simp only [List.length_range]; exact hdims d (List.mem_of_getElem? hd)
+      · intro lo hi st hcs hneg x hx
+        subst hcs
+        simp only [List.length_range]
+        exact hD22 j d lo hi st hc hd hneg x hx
+
+-- non-vacuity: the former D7 witnesses and a 1-D index, all satisfying the hypotheses
+example : graphIndex [.tScalar 1, .int 0] [2, 3, 4] = .ok [.drop 1, .drop 0, .pick [0, 1, 2, 3]] ∧
+    needsTranspose [.tScalar 1, .int 0] = false := by decide
+example : graphIndex [.slice (.const 1) (.const 3) .none, .tScalar 3, .int 2] [3, 4, 5]
+      = .ok [.pick [1, 2], .drop 3, .drop 2] ∧
+    useSlice [.slice (.const 1) (.const 3) .none, .tScalar 3, .int 2] = true := by decide
+example : graphIndex [.int 0, .tVec [2, 0], .slice .none .none (.const (-1))] [2, 3, 4]
+      = .ok [.drop 0, .pick [2, 0], .pick [3, 2, 1, 0]] ∧
+    needsTranspose [.int 0, .tVec [2, 0], .slice .none .none (.const (-1))] = false := by decide
+example : graphIndex [.tScalar (-1), .full, .tScalar 2] [2, 3, 4] = .ok [.drop 1, .pick [0, 1, 2], .drop 2] := by
+  decide
+-- `A[i:i+2, k]` and `A[lo:hi:s]` with everything tensor-valued (documented forms)
+example : graphIndex [.slice (.dyn 1) (.dyn 3) .none, .tScalar 2] [4, 3] = .ok [.pick [1, 2], .drop 2] := by
+  decide
+example : graphIndex [.tScalar 0, .slice (.dyn 3) (.dyn 0) (.dyn (-2))] [2, 5] = .ok [.drop 0, .pick [3, 1]] := by
+  decide
+
+/-- The D22 hypothesis of `graph_index_correct_partial` cannot be dropped: `A[-4::-1]` on a
+length-3 tensor satisfies every other hypothesis, the graph returns `[A[0]]`, NumPy `[]`. -/
+theorem graph_index_without_d22_refuted :
+    ¬ (∀ (comps : List Comp) (shape : List Nat) (r : View),
+        (comps.filter Comp.isVec).length ≤ 1 →
+        needsTranspose comps = false → comps.length ≤ shape.length →
+        (∀ d ∈ shape, (d : Int) < maxint) →
+        graphIndex comps shape = .ok r → numpyIndex comps shape = .ok r) := by
+  intro h
+  have := h [.slice (.const (-4)) .none (.const (-1))] [3] [.pick [0]]
+    (by decide) (by decide) (by decide) (by decide) (by decide)
+  revert this; decide
+
+/-- **Whole expressions, Slice(+Squeeze) path, constant components** (the statement proved before
+tensor-valued components were covered; now a corollary of `graph_index_correct_partial`). -/
 theorem graph_index_slicepath_correct_partial (comps : List Comp) (shape : List Nat) (r : View)
     (hbasic : ∀ c ∈ comps, c.basic = true)
     (hlen : comps.length ≤ shape.length)
     (hdims : ∀ d ∈ shape, (d : Int) < maxint)
     (hD22 : ∀ (j d : Nat) (lo hi st : Bnd), comps[j]? = some (.slice lo hi st) → shape[j]? = some d →
         (st.val?).getD 1 < 0 → ∀ x, lo.val? = some x → -(d : Int) ≤ x)
-    (huse : useSlice comps = true)
+    (_huse : useSlice comps = true)
     (h : graphIndex comps shape = .ok r) : numpyIndex comps shape = .ok r := by
-  -- 1. shape of the plan
-  have hns : nonScalarsOf comps = [] :=
-    filter_zipIdx_none (fun c => c.kind == Kind.nonScalar) comps 0
-      (fun c hc => basic_kind_ne_nonScalar c (hbasic c hc))
-  unfold graphIndex planGraph at h
-  by_cases hempty : ((slicedOf comps).isEmpty && (scalarsOf comps).isEmpty && (nonScalarsOf comps).isEmpty) = true
-  · -- impossible: the Slice path needs a slice or two scalars
-    exfalso
-    simp only [Bool.and_eq_true, List.isEmpty_iff] at hempty
-    have : useSlice comps = false := by simp [useSlice, hempty.1.1, hempty.1.2]
-    rw [this] at huse; cases huse
-  rw [if_neg hempty, huse] at h
-  simp only [if_true] at h
-  by_cases hnone : ((sliceEntriesOf comps).any Option.isNone) = true
-  · rw [if_pos hnone] at h; simp [bind, Except.bind] at h
-  rw [if_neg hnone, hns] at h
-  simp only [List.filterMap_nil, List.append_nil, bind, Except.bind] at h
-  -- 2. lookups
-  have hE : ∀ j c, comps[j]? = some c →
-      ((sliceEntriesOf comps).filterMap id).find? (fun e => e.axis == 0 + j) = entryOf c (0 + j) := by
-    intro j c hj
-    simp only [sliceEntriesOf, List.filterMap_map, List.map_append, List.filterMap_append, Nat.zero_add,
-      List.find?_append, slicedOf, scalarsOf]
-    have e1 := find_entries_zipIdx (fun c => c.kind == Kind.sliced) comps 0 j
-    have e2 := find_entries_zipIdx (fun c => c.kind == Kind.scalar) comps 0 j
-    simp only [Nat.zero_le, if_true, Nat.sub_zero, hj] at e1 e2
-    have e1' : (List.filterMap (id ∘ fun p => entryOf p.1 p.2)
-        (List.filter (fun p => p.1.kind == Kind.sliced) comps.zipIdx)).find? (fun e => e.axis == j)
-        = if (c.kind == Kind.sliced) = true then entryOf c j else none := e1
-    have e2' : (List.filterMap (id ∘ fun p => entryOf p.1 p.2)
-        (List.filter (fun p => p.1.kind == Kind.scalar) comps.zipIdx)).find? (fun e => e.axis == j)
-        = if (c.kind == Kind.scalar) = true then entryOf c j else none := e2
-    rw [e1', e2']
-    have hb := hbasic c (List.mem_of_getElem? hj)
-    cases c with
-    | tScalar v => simp [Comp.basic] at hb
-    | tVec v => simp [Comp.basic] at hb
-    | full => rfl
-    | int i => rfl
-    | slice lo hi st =>
-      by_cases hskip : lo = .none ∧ hi = .none ∧ st = .none
-      · obtain ⟨rfl, rfl, rfl⟩ := hskip
-        rfl
-      · have hk : (Comp.slice lo hi st).kind = Kind.sliced := by
-          cases lo <;> cases hi <;> cases st <;> first | rfl | (exfalso; exact hskip ⟨rfl, rfl, rfl⟩)
-        rw [hk]
-        cases hent : entryOf (Comp.slice lo hi st) j <;> rfl
-  have hE' : ∀ j, comps.length ≤ j →
-      ((sliceEntriesOf comps).filterMap id).find? (fun e => e.axis == 0 + j) = none := by
-    intro j hj
-    simp only [sliceEntriesOf, List.filterMap_map, List.map_append, List.filterMap_append, Nat.zero_add,
-      List.find?_append, slicedOf, scalarsOf]
-    have e1 := find_entries_zipIdx (fun c => c.kind == Kind.sliced) comps 0 j
-    have e2 := find_entries_zipIdx (fun c => c.kind == Kind.scalar) comps 0 j
-    have hnone : comps[j]? = none := List.getElem?_eq_none hj
-    simp only [Nat.zero_le, if_true, Nat.sub_zero, hnone] at e1 e2
-    have e1' : (List.filterMap (id ∘ fun p => entryOf p.1 p.2)
-        (List.filter (fun p => p.1.kind == Kind.sliced) comps.zipIdx)).find? (fun e => e.axis == j) = none := e1
-    have e2' : (List.filterMap (id ∘ fun p => entryOf p.1 p.2)
-        (List.filter (fun p => p.1.kind == Kind.scalar) comps.zipIdx)).find? (fun e => e.axis == j) = none := e2
-    rw [e1', e2']; rfl
-  have hS : ∀ j c, comps[j]? = some c →
-      ((scalarsOf comps).map (fun p => p.2)).contains (0 + j) = c.isInt := by
-    intro j c hj
-    have := contains_zipIdx (fun c => c.kind == Kind.scalar) comps 0 j
-    simp only [Nat.zero_le, if_true, Nat.sub_zero, hj] at this
-    simp only [scalarsOf, Nat.zero_add]
-    rw [this]
-    have hb := hbasic c (List.mem_of_getElem? hj)
-    cases c with
-    | tScalar v => simp [Comp.basic] at hb
-    | tVec v => simp [Comp.basic] at hb
-    | full => rfl
-    | int i => rfl
-    | slice lo hi st => cases lo <;> cases hi <;> cases st <;> rfl
-  have hS' : ∀ j, comps.length ≤ j → ((scalarsOf comps).map (fun p => p.2)).contains (0 + j) = false := by
-    intro j hj
-    have := contains_zipIdx (fun c => c.kind == Kind.scalar) comps 0 j
-    have hnone : comps[j]? = none := List.getElem?_eq_none hj
-    simp only [Nat.zero_le, if_true, Nat.sub_zero, hnone] at this
-    simp only [scalarsOf, Nat.zero_add]
-    exact this
-  -- 3. run the plan
-  have hax : axiswise graphAxisSlicePath comps shape = .ok r := by
-    by_cases hsq : ((scalarsOf comps).map (fun p => p.2)).isEmpty = true
-    · -- no Squeeze
-      rw [if_pos hsq] at h
-      have hrun : opSlice ((sliceEntriesOf comps).filterMap id) (View.init shape) = .ok r := by
-        cases hsl : opSlice ((sliceEntriesOf comps).filterMap id) (View.init shape) with
-        | error e => simp [runPlan, List.foldlM, runOp, hsl, bind, Except.bind] at h
-        | ok v1 => simpa [runPlan, List.foldlM, runOp, hsl, bind, Except.bind, pure, Except.pure] using h
-      obtain ⟨hz, hr⟩ := opSlice_ok _ _ _ hrun
-      have hSnil : (scalarsOf comps).map (fun p => p.2) = [] := by simpa using hsq
-      rw [hSnil] at hS hS'
-      refine slice_squeeze_axiswise _ [] comps shape 0 r hlen hbasic hz hE hE' hS hS' ?_
-      rw [squeeze_go_nil, hr]
-    · rw [if_neg hsq] at h
-      cases hsl : opSlice ((sliceEntriesOf comps).filterMap id) (View.init shape) with
-      | error e => simp [runPlan, List.foldlM, runOp, hsl, bind, Except.bind] at h
-      | ok v1 =>
-        have hsqz : opSqueeze ((scalarsOf comps).map (fun p => p.2)) v1 = .ok r := by
-          cases hq : opSqueeze ((scalarsOf comps).map (fun p => p.2)) v1 with
-          | error e => simp [runPlan, List.foldlM, runOp, hsl, hq, bind, Except.bind] at h
-          | ok v2 => simpa [runPlan, List.foldlM, runOp, hsl, hq, bind, Except.bind, pure, Except.pure] using h
-        obtain ⟨hz, hr⟩ := opSlice_ok _ _ _ hsl
-        have hgo := opSqueeze_ok _ _ _ hsqz
-        rw [hr] at hgo
-        exact slice_squeeze_axiswise _ _ comps shape 0 r hlen hbasic hz hE hE' hS hS' hgo
-  -- 4. axis by axis into NumPy
-  have hnp : axiswise numpyAxis comps shape = .ok r := by
-    refine axiswise_mono graphAxisSlicePath numpyAxis comps shape r ?_ hax
-    intro j c d a hc hd hg
-    refine graph_axis_refines_numpy_partial c (List.range d) a ?_ ?_ hg
-    · simp only [List.length_range]; exact hdims d (List.mem_of_getElem? hd)
-    · intro lo hi st hcs hneg x hx
-      subst hcs
-      simp only [List.length_range]
-      exact hD22 j d lo hi st hc hd hneg x hx
-  -- 5. NumPy's guards do not fire on constant components
-  unfold numpyIndex
-  rw [if_neg (by omega)]
   have hv : comps.filter Comp.isVec = [] := filter_none _ _ (fun c hc => basic_not_vec c (hbasic c hc))
-  rw [hv, if_neg (by simp), needsTranspose_basic comps hbasic]
-  simpa using hnp
+  exact graph_index_correct_partial comps shape r (by simp [hv])
+    (needsTranspose_basic comps hbasic) hlen hdims hD22 h
 
 example : useSlice [.int 1, .full, .slice .none (.const (-1)) (.const 2)] = true ∧
     graphIndex [.int 1, .full, .slice .none (.const (-1)) (.const 2)] [2, 3, 4]
       = .ok [.drop 1, .pick [0, 1, 2], .pick [0, 2]] := by decide
 
-/-- **Whole expressions, single-Gather path.**  For every index expression of constant components
-for which the converter does *not* take the Slice path — exactly one Python int `i` (any sign, in
-or out of range) among any number of `:` — if the translated graph returns a tensor, NumPy returns
-the same tensor.  No hypothesis beyond the code's own case split is needed here. -/
+/-- **Whole expressions, Gather path.**  When the converter does *not* take the Slice path (no
+non-trivial slice, at most one Python int — and any number of tensor-valued indices), **no**
+hypothesis on the components is needed at all: every Gather-translated component, tensor-valued
+or the lone int, of any value in or out of range, is gathered from the highest axis down and the
+result, if there is one, is NumPy's. -/
 theorem graph_index_gatherpath_correct (comps : List Comp) (shape : List Nat) (r : View)
-    (hbasic : ∀ c ∈ comps, c.basic = true)
+    (hvec : (comps.filter Comp.isVec).length ≤ 1)
+    (hnt : needsTranspose comps = false)
     (hlen : comps.length ≤ shape.length)
     (huse : useSlice comps = false)
-    (h : graphIndex comps shape = .ok r) : numpyIndex comps shape = .ok r := by
-  have hns : nonScalarsOf comps = [] :=
-    filter_zipIdx_none (fun c => c.kind == Kind.nonScalar) comps 0
-      (fun c hc => basic_kind_ne_nonScalar c (hbasic c hc))
-  have huse' := huse
-  simp only [useSlice, Bool.or_eq_false_iff, Bool.not_eq_false', decide_eq_false_iff_not] at huse'
-  obtain ⟨hsl, hsc⟩ := huse'
-  have hsl' : slicedOf comps = [] := by simpa using hsl
-  have hnumpy : axiswise numpyAxis comps shape = .ok r → numpyIndex comps shape = .ok r := by
-    intro hnp
-    unfold numpyIndex
-    rw [if_neg (by omega)]
-    have hv : comps.filter Comp.isVec = [] := filter_none _ _ (fun c hc => basic_not_vec c (hbasic c hc))
-    rw [hv, if_neg (by simp), needsTranspose_basic comps hbasic]
-    simpa using hnp
-  unfold graphIndex planGraph at h
-  by_cases hempty : ((slicedOf comps).isEmpty && (scalarsOf comps).isEmpty && (nonScalarsOf comps).isEmpty) = true
-  · -- only full slices: one Identity node, and NumPy returns the whole tensor too
-    rw [if_pos hempty] at h
-    simp only [Bool.and_eq_true, List.isEmpty_iff] at hempty
-    have hr : r = View.init shape := by
-      simpa [runPlan, List.foldlM, runOp, bind, Except.bind, pure, Except.pure] using h.symm
-    subst hr
-    refine hnumpy (axiswise_all_skip comps shape hlen ?_)
-    intro c hc
-    obtain ⟨j, hj⟩ := List.getElem?_of_mem hc
-    have h1 := filter_zipIdx_nil_forall (fun c => c.kind == Kind.scalar) comps 0 hempty.1.2 j c hj
-    have h2 := filter_zipIdx_nil_forall (fun c => c.kind == Kind.sliced) comps 0 hempty.1.1 j c hj
-    have h3 := basic_kind_ne_nonScalar c (hbasic c hc)
-    cases hk : c.kind <;> rw [hk] at h1 h2 h3 <;> first | rfl | (exact absurd h1 (by decide)) | (exact absurd h2 (by decide)) | (exact absurd h3 (by decide))
-  rw [if_neg hempty, huse, hns] at h
-  simp only [Bool.false_eq_true, if_false, List.nil_append, bind, Except.bind] at h
-  -- exactly one scalar
-  have hone : ∃ c j, scalarsOf comps = [(c, j)] := by
-    rw [hsl', hns] at hempty
-    cases hs : scalarsOf comps with
-    | nil => simp [hs] at hempty
-    | cons p rest =>
-      cases rest with
-      | nil => exact ⟨p.1, p.2, rfl⟩
-      | cons q rest' => rw [hs] at hsc; simp at hsc
-  obtain ⟨c, j, hs⟩ := hone
-  obtain ⟨_, hget, hothers⟩ := filter_zipIdx_singleton (fun c => c.kind == Kind.scalar) comps 0 c j hs
-  simp only [Nat.sub_zero] at hget hothers
-  have hck : (c.kind == Kind.scalar) = true := by
-    have : (c, j) ∈ scalarsOf comps := by rw [hs]; simp
-    simp only [scalarsOf, List.mem_filter] at this
-    exact this.2
-  have hcb := hbasic c (List.mem_of_getElem? hget)
-  obtain ⟨i, rfl⟩ : ∃ i, c = .int i := by
-    cases c with
-    | int i => exact ⟨i, rfl⟩
-    | full => exact absurd hck (by decide)
-    | tScalar v => simp [Comp.basic] at hcb
-    | tVec v => simp [Comp.basic] at hcb
-    | slice lo hi st => cases lo <;> cases hi <;> cases st <;> exact absurd hck (by intro h; cases h)
-  rw [hs] at h
-  simp only [List.filterMap_cons, gatherOp, List.filterMap_nil, runPlan, List.foldlM, runOp, bind,
-    Except.bind, pure, Except.pure] at h
-  have hmod : modifyPick j (gatherF i) (View.init shape) = .ok r := by
-    rw [← opGatherScalar_eq]
-    cases hg : opGatherScalar j i (View.init shape) with
-    | error e => simp [hg] at h
-    | ok v => simpa [hg] using h
-  have hskip : ∀ (j' : Nat) (c' : Comp), j' ≠ j → comps[j']? = some c' → c'.kind = Kind.skip := by
-    intro j' c' hne hc'
-    have h1 := hothers j' c' hne hc'
-    have h2 := filter_zipIdx_nil_forall (fun c => c.kind == Kind.sliced) comps 0 hsl' j' c' hc'
-    have h3 := basic_kind_ne_nonScalar c' (hbasic c' (List.mem_of_getElem? hc'))
-    cases hk : c'.kind <;> rw [hk] at h1 h2 h3 <;> first | rfl | (exact absurd h1 (by decide)) | (exact absurd h2 (by decide)) | (exact absurd h3 (by decide))
-  have hnp := gather_axiswise i comps shape j r hlen hget hskip hmod
-  unfold numpyIndex
-  rw [if_neg (by omega)]
-  have hv : comps.filter Comp.isVec = [] := filter_none _ _ (fun c hc => basic_not_vec c (hbasic c hc))
-  rw [hv, if_neg (by simp), needsTranspose_basic comps hbasic]
-  simpa using hnp
+    (h : graphIndex comps shape = .ok r) : numpyIndex comps shape = .ok r :=
+  numpyIndex_of_axiswise comps shape r hvec hnt hlen
+    (graph_gatherpath_axiswise comps shape r hlen huse h)
 
 example : useSlice [.full, .int (-2)] = false ∧
     graphIndex [.full, .int (-2)] [2, 3] = .ok [.pick [0, 1], .drop 1] := by decide
+example : useSlice [.int 0, .tVec [1, 2]] = false ∧
+    graphIndex [.int 0, .tVec [1, 2]] [2, 3, 4] = .ok [.drop 0, .pick [1, 2], .pick [0, 1, 2, 3]] := by decide
 
-/-- **Axis level, eager mode.** -/
+/-- **Axis level, eager mode** (every component that eager mode's Slice(+squeeze) path handles:
+`:`, rank-0 indices — Python ints are promoted —, slices with constant *or tensor-valued* bounds). -/
 theorem eager_axis_refines_numpy_partial (c : Comp) (srcs : List Nat) (a : AxisMap)
-    (hb : c.basic = true)
     (hD22 : ∀ lo hi st, c = .slice lo hi st → (st.val?).getD 1 < 0 →
               ∀ x, lo.val? = some x → -(srcs.length : Int) ≤ x)
     (h : eagerAxisSlicePath c srcs = .ok a) : numpyAxis c srcs = .ok a := by
-  cases c with
-  | full => simpa [eagerAxisSlicePath, numpyAxis] using h
-  | tScalar v => simp [Comp.basic] at hb
-  | tVec vs => simp [Comp.basic] at hb
-  | int i =>
+  have hscalar : ∀ i : Int, eagerAxisSlicePath (.int i) srcs = .ok a → numpyAxis (.int i) srcs = .ok a := by
+    intro i h
     simp only [eagerAxisSlicePath, scalar_as_slice] at h
     simp only [numpyAxis]
     by_cases hm1 : i = -1
@@ -443,6 +336,11 @@ theorem eager_axis_refines_numpy_partial (c : Comp) (srcs : List Nat) (a : AxisM
         cases hk : srcs[k]? with
         | none => simp [hk, single?, Functor.map, Except.map] at h
         | some s => simpa [hk, single?, Functor.map, Except.map] using h
+  cases c with
+  | full => simpa [eagerAxisSlicePath, numpyAxis] using h
+  | tVec vs => simp [eagerAxisSlicePath] at h
+  | tScalar i => exact hscalar i h
+  | int i => exact hscalar i h
   | slice lo hi st =>
     simp only [eagerAxisSlicePath] at h
     by_cases hskip : lo = .none ∧ hi = .none ∧ st = .none
@@ -462,261 +360,58 @@ theorem eager_axis_refines_numpy_partial (c : Comp) (srcs : List Nat) (a : AxisM
           (fun hneg x hx => hD22 lo hi st rfl hneg x hx)] at h
         exact h
 
-/-- **Whole expressions, eager mode.**  For every index expression of constant components (`:`,
-Python ints — which eager mode promotes to rank-0 tensors —, slices with constant bounds), any
-rank, any dimension sizes: if `Tensor.__getitem__` returns a tensor, NumPy returns the same
-tensor — given only the D22 hypothesis for negative steps.  All three paths of the code are
-covered: Identity (only `:`), single Gather (one int, no slice), Slice + `np.squeeze`. -/
+/-- **Whole expressions, eager mode (all paths, tensor-valued indices and bounds included).**
+For *every* index expression with at most one 1-D tensor index placed so that NumPy keeps the
+broadcast axis in place — `:`, Python ints, rank-0 tensor indices, slices whose bounds and steps
+are constants or tensors, any rank, any dimension sizes: if `Tensor.__getitem__` returns a
+tensor, NumPy returns the same tensor, given only the D22 hypothesis for negative steps.  All
+paths of the code are covered: Identity, single Gather, Slice + `np.squeeze`, each followed by the
+1-D Gather on the axis of the intermediate result (/repo commit e7769b9; before it `X[0, I]` was
+wrong — `eager_index_d7_witness_fixed`).  "Too many indices" is refused by the code itself. -/
 theorem eager_index_correct_partial (comps : List Comp) (shape : List Nat) (r : View)
-    (hbasic : ∀ c ∈ comps, c.basic = true)
+    (hvec : (comps.filter Comp.isVec).length ≤ 1)
+    (hnt : needsTranspose comps = false)
     (hD22 : ∀ (j d : Nat) (lo hi st : Bnd), comps[j]? = some (.slice lo hi st) → shape[j]? = some d →
         (st.val?).getD 1 < 0 → ∀ x, lo.val? = some x → -(d : Int) ≤ x)
     (h : eagerIndex comps shape = .ok r) : numpyIndex comps shape = .ok r := by
-  -- NumPy's guards never fire on constant components within rank
-  have hnumpy : comps.length ≤ shape.length → axiswise numpyAxis comps shape = .ok r →
-      numpyIndex comps shape = .ok r := by
-    intro hl hnp
-    unfold numpyIndex
-    rw [if_neg (by omega)]
-    have hv : comps.filter Comp.isVec = [] := filter_none _ _ (fun c hc => basic_not_vec c (hbasic c hc))
-    rw [hv, if_neg (by simp), needsTranspose_basic comps hbasic]
-    simpa using hnp
-  have hvecs : eVecsOf comps = [] :=
-    filter_zipIdx_none Comp.isVec comps 0 (fun c hc => basic_not_vec c (hbasic c hc))
-  unfold eagerIndex planEager at h
-  by_cases hlen : comps.length > shape.length
-  · rw [if_pos hlen] at h; simp [bind, Except.bind] at h
-  rw [if_neg hlen] at h
-  have hlen' : comps.length ≤ shape.length := by omega
-  rw [hvecs] at h
-  simp only [List.filterMap_nil, List.append_nil, List.isEmpty_nil, Bool.and_true] at h
-  -- kinds of basic components
-  have hkind : ∀ (c : Comp), c.basic = true → c.isEagerSliced = false → c.isEagerScalar = false →
-      c.kind = Kind.skip := by
-    intro c hb hs hsc
-    cases c with
-    | full => rfl
-    | int i => simp [Comp.isEagerScalar] at hsc
-    | tScalar v => simp [Comp.basic] at hb
-    | tVec v => simp [Comp.basic] at hb
-    | slice lo hi st =>
-      have : lo = .none ∧ hi = .none ∧ st = .none := by
-        simpa [Comp.isEagerSliced] using hs
-      obtain ⟨rfl, rfl, rfl⟩ := this
-      rfl
-  by_cases hempty : ((eSlicedOf comps).isEmpty && (eScalarsOf comps).isEmpty) = true
-  · -- Identity
-    rw [if_pos hempty] at h
-    simp only [Bool.and_eq_true, List.isEmpty_iff] at hempty
-    have hr : r = View.init shape := by
-      simpa [runPlan, List.foldlM, runOp, bind, Except.bind, pure, Except.pure] using h.symm
-    subst hr
-    refine hnumpy hlen' (axiswise_all_skip comps shape hlen' ?_)
-    intro c hc
-    obtain ⟨j, hj⟩ := List.getElem?_of_mem hc
-    exact hkind c (hbasic c hc)
-      (filter_zipIdx_nil_forall Comp.isEagerSliced comps 0 hempty.1 j c hj)
-      (filter_zipIdx_nil_forall Comp.isEagerScalar comps 0 hempty.2 j c hj)
-  rw [if_neg hempty] at h
-  by_cases hg : ((eSlicedOf comps).isEmpty && ((eScalarsOf comps).length == 1)) = true
-  · -- single Gather
-    rw [if_pos hg] at h
-    simp only [Bool.and_eq_true, List.isEmpty_iff, beq_iff_eq] at hg
-    obtain ⟨hsl, hone⟩ := hg
-    obtain ⟨c, j, hs⟩ : ∃ c j, eScalarsOf comps = [(c, j)] := by
-      cases hsc : eScalarsOf comps with
-      | nil => rw [hsc] at hone; simp at hone
-      | cons p rest =>
-        cases rest with
-        | nil => exact ⟨p.1, p.2, rfl⟩
-        | cons q rest' => rw [hsc] at hone; simp at hone
-    obtain ⟨_, hget, hothers⟩ := filter_zipIdx_singleton Comp.isEagerScalar comps 0 c j hs
-    simp only [Nat.sub_zero] at hget hothers
-    have hcs : c.isEagerScalar = true := by
-      have : (c, j) ∈ eScalarsOf comps := by rw [hs]; simp
-      simp only [eScalarsOf, List.mem_filter] at this
-      exact this.2
-    have hcb := hbasic c (List.mem_of_getElem? hget)
-    obtain ⟨i, rfl⟩ : ∃ i, c = .int i := by
-      cases c with
-      | int i => exact ⟨i, rfl⟩
-      | full => simp [Comp.isEagerScalar] at hcs
-      | tScalar v => simp [Comp.basic] at hcb
-      | tVec v => simp [Comp.basic] at hcb
-      | slice lo hi st => simp [Comp.isEagerScalar] at hcs
-    rw [hs] at h
-    simp only [List.map_cons, List.map_nil, Comp.scalarVal, runPlan, List.foldlM, runOp, bind, Except.bind,
-      pure, Except.pure] at h
-    have hmod : modifyPick j (gatherF i) (View.init shape) = .ok r := by
-      rw [← opGatherScalar_eq]
-      cases hgs : opGatherScalar j i (View.init shape) with
-      | error e => simp [hgs] at h
-      | ok v => simpa [hgs] using h
-    have hskip : ∀ (j' : Nat) (c' : Comp), j' ≠ j → comps[j']? = some c' → c'.kind = Kind.skip := by
-      intro j' c' hne hc'
-      exact hkind c' (hbasic c' (List.mem_of_getElem? hc'))
-        (filter_zipIdx_nil_forall Comp.isEagerSliced comps 0 hsl j' c' hc')
-        (hothers j' c' hne hc')
-    exact hnumpy hlen' (gather_axiswise i comps shape j r hlen' hget hskip hmod)
-  · -- Slice (+ np.squeeze)
-    rw [if_neg hg] at h
-    have hany : (!(eSlicedOf comps).isEmpty || !(eScalarsOf comps).isEmpty) = true := by
-      cases h1 : (eSlicedOf comps).isEmpty <;> cases h2 : (eScalarsOf comps).isEmpty <;> simp_all
-    rw [if_pos hany] at h
-    -- lookups
-    have gax : ∀ c j e, entryOfEager c j (shape.getD j 0) = some e → e.axis = j := by
-      intro c j e he
-      cases c with
-      | full => simp [entryOfEager] at he
-      | tVec v => simp [entryOfEager] at he
-      | int i => simp [entryOfEager] at he; rw [← he]
-      | tScalar i => simp [entryOfEager] at he; rw [← he]
-      | slice lo hi st =>
-        have he' : (if lo = .none ∧ hi = .none ∧ st = .none then none else
-            some (⟨j, (eagerBounds (shape.getD j 0) lo.val? hi.val? ((st.val?).getD 1)).1,
-              (eagerBounds (shape.getD j 0) lo.val? hi.val? ((st.val?).getD 1)).2,
-              (st.val?).getD 1⟩ : SliceEntry)) = some e := he
-        by_cases hsk : lo = .none ∧ hi = .none ∧ st = .none
-        · rw [if_pos hsk] at he'; simp at he'
-        · rw [if_neg hsk] at he'; simp at he'; rw [← he']
-    have hfind : ∀ (j : Nat), (eagerEntriesOf comps shape).find? (fun e => e.axis == j)
-        = (match comps[j]? with
-           | some c => (if c.isEagerSliced then entryOfEager c j (shape.getD j 0) else none).or
-                       (if c.isEagerScalar then entryOfEager c j (shape.getD j 0) else none)
-           | none => none) := by
-      intro j
-      simp only [eagerEntriesOf, List.filterMap_append, List.find?_append, eSlicedOf, eScalarsOf]
-      have e1 := find_entries_zipIdx_gen Comp.isEagerSliced
-        (fun c j => entryOfEager c j (shape.getD j 0)) gax comps 0 j
-      have e2 := find_entries_zipIdx_gen Comp.isEagerScalar
-        (fun c j => entryOfEager c j (shape.getD j 0)) gax comps 0 j
-      simp only [Nat.zero_le, if_true, Nat.sub_zero] at e1 e2
-      rw [e1, e2]
-      cases comps[j]? <;> rfl
-    have hE : ∀ (j : Nat) (c : Comp) (d : Nat), comps[j]? = some c → shape[j]? = some d →
-        (eagerEntriesOf comps shape).find? (fun e => e.axis == 0 + j) = entryOfEager c (0 + j) d := by
-      intro j c d hj hd
-      have hd' : shape.getD j 0 = d := by simp [List.getD, hd]
-      rw [Nat.zero_add, hfind j, hj]
-      simp only [hd']
-      have hb := hbasic c (List.mem_of_getElem? hj)
-      cases c with
-      | tScalar v => simp [Comp.basic] at hb
-      | tVec v => simp [Comp.basic] at hb
-      | full => rfl
-      | int i => rfl
-      | slice lo hi st =>
-        by_cases hsk : lo = .none ∧ hi = .none ∧ st = .none
-        · obtain ⟨rfl, rfl, rfl⟩ := hsk; rfl
-        · have h1 : (Comp.slice lo hi st).isEagerSliced = true := by simp [Comp.isEagerSliced, hsk]
-          have h2 : (Comp.slice lo hi st).isEagerScalar = false := rfl
-          simp only [h1, h2, if_true, Bool.false_eq_true, if_false, Option.or_none]
-    have hE' : ∀ j, comps.length ≤ j →
-        (eagerEntriesOf comps shape).find? (fun e => e.axis == 0 + j) = none := by
-      intro j hj
-      rw [Nat.zero_add, hfind j, List.getElem?_eq_none hj]
-    have hS : ∀ (j : Nat) (c : Comp), comps[j]? = some c →
-        ((eScalarsOf comps).map (fun p => p.2)).contains (0 + j) = c.isEagerScalar := by
-      intro j c hj
-      have := contains_zipIdx Comp.isEagerScalar comps 0 j
-      simp only [Nat.zero_le, if_true, Nat.sub_zero, hj] at this
-      simp only [eScalarsOf, Nat.zero_add]
-      exact this
-    have hS' : ∀ j, comps.length ≤ j →
-        ((eScalarsOf comps).map (fun p => p.2)).contains (0 + j) = false := by
-      intro j hj
-      have := contains_zipIdx Comp.isEagerScalar comps 0 j
-      simp only [Nat.zero_le, if_true, Nat.sub_zero, List.getElem?_eq_none hj] at this
-      simp only [eScalarsOf, Nat.zero_add]
-      exact this
-    -- run the plan
-    cases hsl : opSlice (eagerEntriesOf comps shape) (View.init shape) with
-    | error e =>
-      by_cases hsq : (eScalarsOf comps).isEmpty = true <;>
-        simp [hsq, runPlan, List.foldlM, runOp, hsl, bind, Except.bind] at h
-    | ok v1 =>
-      obtain ⟨hz, hv1⟩ := opSlice_ok _ _ _ hsl
-      -- every component's step is non-zero (else Slice would have failed)
-      have hstep : ∀ c ∈ comps, c.basic = true ∧
-          (∀ lo hi st, c = .slice lo hi st → ¬ (lo = .none ∧ hi = .none ∧ st = .none) →
-            (st.val?).getD 1 ≠ 0) := by
-        intro c hc
-        refine ⟨hbasic c hc, ?_⟩
-        intro lo hi st hcs hsk h0
-        subst hcs
-        obtain ⟨j, hj⟩ := List.getElem?_of_mem hc
-        have hjl : j < shape.length := by
-          have := List.getElem?_eq_some_iff.mp hj |>.1
-          omega
-        have hfd := hE j _ (shape[j]) hj (by simp [hjl])
-        have hent : entryOfEager (.slice lo hi st) (0 + j) shape[j]
-            = some ⟨0 + j, (eagerBounds shape[j] lo.val? hi.val? ((st.val?).getD 1)).1,
-                (eagerBounds shape[j] lo.val? hi.val? ((st.val?).getD 1)).2, (st.val?).getD 1⟩ := by
-          show (if _ then _ else _) = _
-          rw [if_neg hsk]
-        rw [hent] at hfd
-        exact hz _ (List.mem_of_find?_eq_some hfd) h0
-      have hgo : opSqueeze.go ((eScalarsOf comps).map (fun p => p.2)) 0
-          (opSlice.go (eagerEntriesOf comps shape) 0 (View.init shape)) = .ok r := by
-        by_cases hsq : (eScalarsOf comps).isEmpty = true
-        · have hSnil : (eScalarsOf comps).map (fun p => p.2) = [] := by
-            simp only [List.isEmpty_iff] at hsq; simp [hsq]
-          rw [hSnil, squeeze_go_nil, ← hv1]
-          simpa [hsq, runPlan, List.foldlM, runOp, hsl, bind, Except.bind, pure, Except.pure] using h
-        · have hsq' : (eScalarsOf comps).isEmpty = false := by simpa using hsq
-          cases hq : opSqueeze ((eScalarsOf comps).map (fun p => p.2)) v1 with
-          | error e =>
-            simp [hsq', runPlan, List.foldlM, runOp, hsl, hq, bind, Except.bind] at h
-          | ok v2 =>
-            have : v2 = r := by
-              simpa [hsq', runPlan, List.foldlM, runOp, hsl, hq, bind, Except.bind, pure, Except.pure] using h
-            subst this
-            have := opSqueeze_ok _ _ _ hq
-            rwa [hv1] at this
-      have hax := slice_squeeze_axiswise_gen (eagerEntriesOf comps shape)
-        ((eScalarsOf comps).map (fun p => p.2)) entryOfEager Comp.isEagerScalar eagerAxisSlicePath
-        (fun c => c.basic = true ∧ (∀ lo hi st, c = .slice lo hi st →
-            ¬ (lo = .none ∧ hi = .none ∧ st = .none) → (st.val?).getD 1 ≠ 0))
-        (by
-          intro c j d hP
-          obtain ⟨hb, hst⟩ := hP
-          cases c with
-          | tScalar v => simp [Comp.basic] at hb
-          | tVec v => simp [Comp.basic] at hb
-          | full => simp [eagerAxisSlicePath, axisAfter, entryOfEager, applyEntry, Comp.isEagerScalar]
-          | int i => simp [eagerAxisSlicePath, axisAfter, entryOfEager, applyEntry, Comp.isEagerScalar]
-          | slice lo hi st =>
-            by_cases hsk : lo = .none ∧ hi = .none ∧ st = .none
-            · simp [eagerAxisSlicePath, axisAfter, entryOfEager, applyEntry, Comp.isEagerScalar, hsk]
-            · have h0 := hst lo hi st rfl hsk
-              have hb0 : ((st.val?).getD 1 == 0) = false := by simpa using h0
-              simp [eagerAxisSlicePath, axisAfter, entryOfEager, applyEntry, Comp.isEagerScalar, hsk, hb0])
-        comps shape 0 r hlen' hstep hE hE' hS hS' hgo
-      refine hnumpy hlen' (axiswise_mono eagerAxisSlicePath numpyAxis comps shape r ?_ hax)
-      intro j c d a hc hd hg'
-      refine eager_axis_refines_numpy_partial c (List.range d) a (hbasic c (List.mem_of_getElem? hc)) ?_ hg'
-      intro lo hi st hcs hneg x hx
-      subst hcs
-      simp only [List.length_range]
-      exact hD22 j d lo hi st hc hd hneg x hx
+  obtain ⟨hlen, F, hF, hax⟩ := eager_index_axiswise comps shape r hvec h
+  refine numpyIndex_of_axiswise comps shape r hvec hnt hlen ?_
+  refine axiswise_mono F numpyAxis comps shape r ?_ hF
+  intro j c d a hc hd hg
+  rcases hax j c d a hc hd hg with hn | he
+  · exact hn
+  · refine eager_axis_refines_numpy_partial c (List.range d) a ?_ he
+    intro lo hi st hcs hneg x hx
+    subst hcs
+    simp only [List.length_range]
+    exact hD22 j d lo hi st hc hd hneg x hx
 
 example : eagerIndex [.int (-2), .slice (.const 1) .none .none] [3, 4] = .ok [.drop 1, .pick [1, 2, 3]] := by
   decide
+example : eagerIndex [.int 0, .tVec [1, 2]] [2, 3, 4] = .ok [.drop 0, .pick [1, 2], .pick [0, 1, 2, 3]] ∧
+    needsTranspose [.int 0, .tVec [1, 2]] = false := by decide
+example : eagerIndex [.tScalar 1, .slice (.dyn 1) .none .none, .tVec [3, 0]] [2, 3, 4]
+    = .ok [.drop 1, .pick [1, 2], .pick [3, 0]] := by decide
 
-/-- Whole expressions, full statement: "if the translated graph returns a tensor, it is NumPy's".
-**Refuted** on the model of the unchanged converter by `A[i, 0]` (`i` a rank-0 tensor holding 1,
-`A : 2×3×4`): the plan gathers axis 0 (rank drops) and then gathers axis **1** of the reduced
-tensor — finding D7, replayed on the real converter by the check. -/
-theorem graph_index_full_refuted :
-    ¬ (∀ comps shape r, graphIndex comps shape = .ok r → numpyIndex comps shape = .ok r) := by
-  intro h
-  have := h [.tScalar 1, .int 0] [2, 3, 4] [.drop 1, .pick [0, 1, 2], .drop 0] (by decide)
-  revert this; decide
+/-- Finding D7, repaired by /repo commit e7769b9, as a regression: `A[i, 0]` (`i` a rank-0 tensor
+holding 1, `A : 2×3×4`) — the model of the old converter gathered axis 0 and then axis **1** of
+the reduced tensor (`[.drop 1, .pick [0,1,2], .drop 0]`); the repaired converter gathers axis 1
+first and agrees with NumPy.  The witness is replayed on the real converter on every run. -/
+theorem graph_index_d7_witness_fixed :
+    graphIndex [.tScalar 1, .int 0] [2, 3, 4] = numpyIndex [.tScalar 1, .int 0] [2, 3, 4] ∧
+    graphIndex [.tScalar 1, .full, .tScalar 2] [2, 3, 4] = numpyIndex [.tScalar 1, .full, .tScalar 2] [2, 3, 4] ∧
+    graphIndex [.slice (.const 1) (.const 3) .none, .tScalar 3, .int 2] [3, 4, 5]
+      = numpyIndex [.slice (.const 1) (.const 3) .none, .tScalar 3, .int 2] [3, 4, 5] := by decide
 
-/-- The same expression in eager mode is right (both scalars go through Slice + squeeze), so the two
-front ends disagree with each other on it. -/
+/-- The eager face of D7, repaired by the same commit: `X[0, I]` (1-D `I` after a rank-0 index). -/
+theorem eager_index_d7_witness_fixed :
+    eagerIndex [.int 0, .tVec [1, 2]] [2, 3, 4] = numpyIndex [.int 0, .tVec [1, 2]] [2, 3, 4] := by decide
+
+/-- `A[i, 0]` in eager mode (both scalars go through Slice + squeeze) was right all along; the two
+front ends now agree with each other and with NumPy on it. -/
 theorem eager_index_witness_ok :
-    eagerIndex [.tScalar 1, .int 0] [2, 3, 4] = numpyIndex [.tScalar 1, .int 0] [2, 3, 4] := by decide
+    eagerIndex [.tScalar 1, .int 0] [2, 3, 4] = numpyIndex [.tScalar 1, .int 0] [2, 3, 4] ∧
+    eagerIndex [.tScalar 1, .int 0] [2, 3, 4] = graphIndex [.tScalar 1, .int 0] [2, 3, 4] := by decide
 
 /-- D22 at the level of whole expressions: `A[-4::-1]` on a length-3 tensor. -/
 theorem graph_index_d22_witness :
